@@ -14,6 +14,10 @@ inductive Op where
   | dropRp (db rp : String)
   | dropDb (db : String)
   | restart (listed : List Nat)
+  | dropSeries (db mst : String) (s : Nat)
+  | mbegin (id : Nat)
+  | mend (id : Nat)
+  | purge
 deriving Repr
 
 def St.step (st : St) : Op → St
@@ -23,6 +27,10 @@ def St.step (st : St) : Op → St
   | .dropRp db rp => st.dropRp db rp
   | .dropDb db => st.dropDb db
   | .restart l => st.restart l
+  | .dropSeries db mst s => st.dropSeries db mst s
+  | .mbegin id => st.setBusy id true
+  | .mend id => st.setBusy id false
+  | .purge => st.purge
 
 def run (st : St) (ops : List Op) : St := ops.foldl St.step st
 
@@ -187,7 +195,37 @@ theorem noRp_step (st : St) (db rp : String) (h : NoRp st db rp) (op : Op) (hm :
     split <;> exact this
   | dropRp d r => exact fun sh hsh => h sh (List.mem_filter.1 hsh).1
   | dropDb d => exact fun sh hsh => h sh (List.mem_filter.1 hsh).1
-  | restart l => exact fun sh hsh => h sh (List.mem_filter.1 hsh).1
+  | restart l =>
+    intro sh hsh
+    simp only [St.step, St.restart, List.mem_map, List.mem_filter] at hsh
+    obtain ⟨s0, hs0, rfl⟩ := hsh
+    exact h s0 hs0.1
+  | dropSeries d m s =>
+    intro sh hsh
+    simp only [St.step, St.dropSeries, List.mem_map] at hsh
+    obtain ⟨s0, hs0, rfl⟩ := hsh
+    have := h s0 hs0
+    split <;> exact this
+  | mbegin id =>
+    intro sh hsh
+    simp only [St.step, St.setBusy, List.mem_map] at hsh
+    obtain ⟨s0, hs0, rfl⟩ := hsh
+    have := h s0 hs0
+    split <;> exact this
+  | mend id =>
+    intro sh hsh
+    simp only [St.step, St.setBusy, List.mem_map] at hsh
+    obtain ⟨s0, hs0, rfl⟩ := hsh
+    have := h s0 hs0
+    split <;> exact this
+  | purge =>
+    intro sh hsh
+    simp only [St.step, St.purge, List.mem_map] at hsh
+    obtain ⟨s0, hs0, rfl⟩ := hsh
+    have := h s0 hs0
+    split
+    · split <;> exact this
+    · exact this
 
 /-- **drop_rp_permanent**: after DROP RETENTION POLICY, whatever follows — writes, other drops,
 restarts with any shard list — as long as no shard is created for the policy again, the engine
@@ -205,23 +243,172 @@ theorem drop_rp_permanent (st : St) (db rp : String) (ops : List Op) (hm : ∀ o
 theorem recreated_rp_empty (st : St) (db rp : String) (id ix : Nat) (mst : String)
     (hfresh : (st.dropRp db rp).find id = none) :
     ((st.dropRp db rp).mkShard db rp id ix).dump id mst = some [] := by
-  have h1 : (st.dropRp db rp).mkShard db rp id ix =
-      { shards := (st.dropRp db rp).shards ++ [⟨db, rp, id, ix, []⟩],
-        dbDirs := if (st.dropRp db rp).dbDirs.contains db then (st.dropRp db rp).dbDirs else (st.dropRp db rp).dbDirs ++ [db] } := by
-    unfold St.mkShard
-    rw [hfresh]
-    rfl
-  rw [h1]
+  unfold St.mkShard
+  rw [hfresh]
+  simp only [Option.isSome_none, Bool.false_eq_true, if_false, St.dump, St.find, List.find?_append]
   simp only [St.find] at hfresh
-  simp only [St.dump, St.find, List.find?_append, hfresh]
+  rw [hfresh]
   simp [lww]
 
-/-- a restart with a list that names every shard held changes nothing. -/
-theorem restart_all_listed (st : St) (listed : List Nat) (h : ∀ sh ∈ st.shards, sh.id ∈ listed) :
-    st.restart listed = st := by
-  simp only [St.restart]
-  congr 1
-  exact List.filter_eq_self.2 (fun sh hsh => by simpa using h sh hsh)
+/-- a restart with a list that names every shard held keeps every shard with its rows and its series. -/
+theorem restart_all_listed (st : St) (listed : List Nat) (h : ∀ sh ∈ st.shards, sh.id ∈ listed) (id : Nat) (mst : String) :
+    (st.restart listed).dump id mst = st.dump id mst ∧ (st.restart listed).seriesOf id mst = st.seriesOf id mst := by
+  have hf : (st.shards.filter fun sh => listed.contains sh.id) = st.shards :=
+    List.filter_eq_self.2 (fun sh hsh => by simpa using h sh hsh)
+  have key : ((st.restart listed).find id) = (st.find id).map fun sh => { sh with busy := false } := by
+    simp only [St.find, St.restart, hf]
+    exact find_map st (fun sh => { sh with busy := false }) (fun _ => rfl) id
+  simp only [St.dump, St.seriesOf, key]
+  cases st.find id <;> simp
+
+/-! ### DROP SERIES on the engine: what is named goes from every index of the database, and stays away -/
+
+/-- the series is listed in no shard of the database after the drop ... -/
+theorem dropSeries_removes (st : St) (db mst : String) (s : Nat) :
+    ∀ sh ∈ (st.dropSeries db mst s).shards, sh.db = db → (mst, s) ∉ sh.series := by
+  intro sh hsh hdb
+  simp only [St.dropSeries, List.mem_map] at hsh
+  obtain ⟨s0, _, rfl⟩ := hsh
+  by_cases hc : (s0.db == db && s0.series.contains (mst, s)) = true
+  · simp only [hc, if_true]
+    simp
+  · simp only [hc, Bool.false_eq_true, if_false] at hdb ⊢
+    simp only [Bool.and_eq_true, beq_iff_eq, List.contains_eq_mem, decide_eq_true_eq, not_and] at hc
+    exact hc hdb
+
+/-- ... every other series of every shard stays listed. -/
+theorem dropSeries_keeps (st : St) (db mst : String) (s : Nat) (sh : Shard) (h : sh ∈ st.shards) (k : String × Nat)
+    (hk : k ∈ sh.series) (hne : k ≠ (mst, s)) :
+    ∃ sh' ∈ (st.dropSeries db mst s).shards, sh'.id = sh.id ∧ k ∈ sh'.series := by
+  refine ⟨_, List.mem_map.2 ⟨sh, h, rfl⟩, ?_, ?_⟩
+  · by_cases hc : (sh.db == db && sh.series.contains (mst, s)) = true
+    · simp only [hc, if_true]
+    · simp only [hc, Bool.false_eq_true, if_false]
+  · by_cases hc : (sh.db == db && sh.series.contains (mst, s)) = true
+    · simp only [hc, if_true, List.mem_filter, bne_iff_ne, ne_eq]
+      exact ⟨hk, hne⟩
+    · simp only [hc, Bool.false_eq_true, if_false]
+      exact hk
+
+/-- a series is listed in no shard of the database. -/
+def NoSeries (st : St) (db mst : String) (s : Nat) : Prop := ∀ sh ∈ st.shards, sh.db = db → (mst, s) ∉ sh.series
+
+def Op.writes (mst : String) (s : Nat) : Op → Bool
+  | .write _ r => r.mst == mst && r.s == s
+  | _ => false
+
+theorem noSeries_step (st : St) (db mst : String) (s : Nat) (h : NoSeries st db mst s) (op : Op)
+    (hw : op.writes mst s = false) : NoSeries (st.step op) db mst s := by
+  cases op with
+  | mkShard d r id ix =>
+    simp only [St.step, St.mkShard]
+    split
+    · exact h
+    · intro sh hsh hdb
+      simp only [List.mem_append, List.mem_singleton] at hsh
+      rcases hsh with hsh | rfl
+      · exact h sh hsh hdb
+      · simp
+  | write id r =>
+    simp only [St.step, St.write]
+    cases hf : st.find id with
+    | none => exact h
+    | some sh0 =>
+      intro sh hsh hdb
+      simp only [Option.getD_some, List.mem_map] at hsh
+      obtain ⟨s0, hs0, rfl⟩ := hsh
+      simp only [Op.writes, Bool.and_eq_false_iff, beq_eq_false_iff_ne] at hw
+      by_cases hid : (s0.id == id) = true
+      · simp only [hid, if_true] at hdb ⊢
+        split
+        · exact h s0 hs0 hdb
+        · simp only [List.mem_append, List.mem_singleton, not_or]
+          refine ⟨h s0 hs0 hdb, ?_⟩
+          intro hc
+          have := Prod.mk.inj hc
+          rcases hw with hw | hw
+          · exact hw this.1.symm
+          · exact hw this.2.symm
+      · simp only [hid, if_false] at hdb ⊢
+        exact h s0 hs0 hdb
+  | dropMst d m ids =>
+    intro sh hsh hdb
+    simp only [St.step, St.dropMst, List.mem_map] at hsh
+    obtain ⟨s0, hs0, rfl⟩ := hsh
+    by_cases hc : (s0.db == d && ids.contains s0.id) = true
+    · simp only [hc, if_true] at hdb ⊢
+      exact h s0 hs0 hdb
+    · simp only [hc, Bool.false_eq_true, if_false] at hdb ⊢
+      exact h s0 hs0 hdb
+  | dropRp d r => exact fun sh hsh => h sh (List.mem_filter.1 hsh).1
+  | dropDb d => exact fun sh hsh => h sh (List.mem_filter.1 hsh).1
+  | restart l =>
+    intro sh hsh hdb
+    simp only [St.step, St.restart, List.mem_map, List.mem_filter] at hsh
+    obtain ⟨s0, hs0, rfl⟩ := hsh
+    exact h s0 hs0.1 hdb
+  | dropSeries d m s' =>
+    intro sh hsh hdb
+    simp only [St.step, St.dropSeries, List.mem_map] at hsh
+    obtain ⟨s0, hs0, rfl⟩ := hsh
+    by_cases hc : (s0.db == d && s0.series.contains (m, s')) = true
+    · simp only [hc, if_true] at hdb ⊢
+      intro hx
+      exact h s0 hs0 hdb (List.mem_filter.1 hx).1
+    · simp only [hc, Bool.false_eq_true, if_false] at hdb ⊢
+      exact h s0 hs0 hdb
+  | mbegin id =>
+    intro sh hsh hdb
+    simp only [St.step, St.setBusy, List.mem_map] at hsh
+    obtain ⟨s0, hs0, rfl⟩ := hsh
+    by_cases hc : (s0.id == id) = true
+    · simp only [hc, if_true] at hdb ⊢
+      exact h s0 hs0 hdb
+    · simp only [hc, Bool.false_eq_true, if_false] at hdb ⊢
+      exact h s0 hs0 hdb
+  | mend id =>
+    intro sh hsh hdb
+    simp only [St.step, St.setBusy, List.mem_map] at hsh
+    obtain ⟨s0, hs0, rfl⟩ := hsh
+    by_cases hc : (s0.id == id) = true
+    · simp only [hc, if_true] at hdb ⊢
+      exact h s0 hs0 hdb
+    · simp only [hc, Bool.false_eq_true, if_false] at hdb ⊢
+      exact h s0 hs0 hdb
+  | purge =>
+    intro sh hsh hdb
+    simp only [St.step, St.purge, List.mem_map] at hsh
+    obtain ⟨s0, hs0, rfl⟩ := hsh
+    cases hp : st.polOf s0.db s0.rp with
+    | none =>
+      simp only [hp] at hdb ⊢
+      exact h s0 hs0 hdb
+    | some p =>
+      simp only [hp] at hdb ⊢
+      by_cases hc : (p.mem && !s0.busy) = true
+      · simp only [hc, if_true] at hdb ⊢
+        exact h s0 hs0 hdb
+      · simp only [hc, Bool.false_eq_true, if_false] at hdb ⊢
+        exact h s0 hs0 hdb
+
+/-- **drop_series_permanent**: after DROP SERIES on a database, whatever follows — drops of
+measurements / policies / databases, new shards, merges of index parts, purges (complete or
+refused), restarts — as long as the series is not written again, no index of the database lists it. -/
+theorem drop_series_permanent (st : St) (db mst : String) (s : Nat) (ops : List Op)
+    (hw : ∀ op ∈ ops, op.writes mst s = false) : NoSeries (run (st.dropSeries db mst s) ops) db mst s := by
+  have h0 : NoSeries (st.dropSeries db mst s) db mst s := dropSeries_removes st db mst s
+  generalize st.dropSeries db mst s = t at h0
+  induction ops generalizing t with
+  | nil => exact h0
+  | cons op ops ih =>
+    exact ih (fun o ho => hw o (List.mem_cons_of_mem _ ho)) _ (noSeries_step t db mst s h0 op (hw op (List.mem_cons_self)))
+
+/-- the purge forgets the deleted tsids of a policy on disk only when no index of the policy had
+to leave parts to a running merger. -/
+theorem purge_forgets_only_complete (st : St) (p : Pol) (hp : p ∈ st.pols) (hd : p.disk = true) (hb : st.polBusy p = true) :
+    p ∈ st.purge.pols := by
+  simp only [St.purge, List.mem_map]
+  exact ⟨p, hp, by simp [hb]⟩
 
 /-! ### non-vacuity -/
 
@@ -236,5 +423,19 @@ example : (run St.init demo).loaded =
 example : (run St.init demo).dump 1 "m" = some [] ∧ (run St.init demo).dump 1 "n" = some [⟨"n", 0, 0, "4"⟩] ∧
     (run St.init demo).dump 4 "m" = some [⟨"m", 1, 5, "9"⟩] ∧ (run St.init demo).dump 2 "m" = none := by decide
 example : (run St.init demo).dbDirs = ["db0", "db1"] := by decide
+
+/-- two shards of one policy (an index each): the series is dropped from both; a merger holds
+parts of the second index when the purge runs: refused, the deleted set stays on disk; after the
+merge the purge completes. The series is listed by neither index, before or after the restart. -/
+def demo2 : List Op :=
+  [.mkShard "db0" "rp0" 1 1, .mkShard "db0" "rp0" 2 2,
+   .write 1 ⟨"m", 0, 0, "1"⟩, .write 1 ⟨"m", 1, 1, "1"⟩, .write 2 ⟨"m", 0, 3, "1"⟩, .write 2 ⟨"m", 1, 4, "1"⟩,
+   .dropSeries "db0" "m" 0, .mbegin 2, .purge]
+
+example : (run St.init demo2.dropLast).purgeRefused = true ∧ (run St.init (demo2 ++ [.mend 2])).purgeRefused = false := by decide
+example : (run St.init demo2).pols = [⟨"db0", "rp0", true, true⟩] := by decide
+example : (run St.init (demo2 ++ [.mend 2, .purge])).pols = [⟨"db0", "rp0", true, false⟩] := by decide
+example : (run St.init (demo2 ++ [.mend 2, .restart [1, 2]])).seriesOf 2 "m" = some [1] ∧
+    (run St.init (demo2 ++ [.mend 2, .restart [1, 2]])).dump 2 "m" = some [⟨"m", 1, 4, "1"⟩] := by decide
 
 end OG.C13.Store
